@@ -193,11 +193,110 @@ def enum_job(rng, b, n, target=None, name=None):
     return j
 
 
+# ------------------------------------------------------------------ directed family: the index arithmetic of every branch
+
+DIRECTED_BASES = [
+    # (basis, full cross product?)
+    ([["x", "a"], ["inv", "square", "sqrt_abs", "log_abs", "exp", "sin"], ["+", "*", "-", "/"]], True),
+    ([["x", "a"], ["inv", "square", "sqrt_abs", "log_abs", "exp", "sin"], ["+", "*", "/"]], False),      # no '-'
+    ([["x", "a"], ["inv", "square", "sqrt_abs", "log_abs", "exp", "sin"], ["+", "*", "-"]], False),      # no '/'
+    ([["x", "a"], ["inv", "cube", "log_abs", "exp", "sin"], ["+", "*"]], False),                         # neither, cube, no sqrt_abs
+]
+
+
+def _flat(t):
+    out = [t[0]]
+    for c in t[1:]:
+        out += _flat(c)
+    return out
+
+
+def _name_leaves(labels):
+    """'X' -> x ; 'P' -> a0, a1, ... in order of appearance (as shape_to_functions numbers parameters)"""
+    out, k = [], 0
+    for l in labels:
+        if l == "X":
+            out.append("x")
+        elif l == "P":
+            out.append("a%d" % k)
+            k += 1
+        else:
+            out.append(l)
+    return out
+
+
+def directed_trees(basis, full, deep=False):
+    """Every rewrite-site kind (log_abs with a chain of 1-2 power operators below it, exp with such a chain above it), bare and as
+    left / right argument of + and - (and of * and / as controls) with sibling subtrees of 1, 2 and 3 nodes, embedded in outer
+    contexts: none, a unary operator on top, left / right argument of a binary operator with a 1- or 2-node sibling, two levels.
+    All leaves other than the site's own argument are distinct parameters, so a dropped, duplicated or misplaced node changes
+    the function."""
+    un, bi = basis[1], basis[2]
+    pw = [o for o in POW_OPS if o in un]
+    chains = [[p] for p in pw] + [[p, q] for p in pw for q in pw]
+    if not (full and deep):
+        keep = {("inv", "sqrt_abs"), ("sqrt_abs", "inv"), ("inv", "square"), ("square", "inv"), ("square", "sqrt_abs"),
+                ("inv", "inv"), ("inv", "cube"), ("cube", "inv"), ("cube", "cube")}
+        chains = [c for c in chains if len(c) == 1 or tuple(c) in keep]
+    leaf = ("P",)
+    args = [("X",), ("*", ("X",), ("P",))]
+    sites = []
+    for ch in chains:
+        for a in (args if (deep or len(ch) == 1) else args[:1]):
+            if "log_abs" in un:          # log_abs(p1(p2(arg)))
+                t = a
+                for p in reversed(ch):
+                    t = (p, t)
+                sites.append(("log_abs", t))
+            if "exp" in un:              # p2(p1(exp(arg)))
+                t = ("exp", a)
+                for p in ch:
+                    t = (p, t)
+                sites.append(t)
+    sibs = [leaf, ("sin", leaf), ("*", leaf, leaf)]
+    placed = []
+    for st in sites:
+        placed.append(st)
+        for op in bi:
+            if op in ("+", "-"):
+                ss = sibs
+            elif full:
+                ss = sibs[:1]
+            else:
+                continue
+            for sb in ss:
+                placed.append((op, st, sb))
+                placed.append((op, sb, st))
+    two = ("sin", leaf)
+    ctxs = [lambda t: t,
+            lambda t: ("*", t, leaf),                       # something follows the subtree: every "rest of the tree" slice
+            lambda t: ("+", leaf, t)]                        # something precedes it, under a + (nested sums)
+    if full:
+        ctxs += [lambda t: ("sin", t), lambda t: ("inv", t),
+                 lambda t: ("*", t, two), lambda t: ("+", t, leaf), lambda t: ("-", t, leaf),
+                 lambda t: ("*", leaf, t), lambda t: ("*", two, t), lambda t: ("-", leaf, t),
+                 lambda t: ("inv", ("exp", t)),              # an exp site above the sum: later passes add trailing constants
+                 lambda t: ("sin", ("*", t, leaf)), lambda t: ("*", ("+", leaf, t), leaf), lambda t: ("*", leaf, ("-", t, leaf))]
+    ctxs = [c for c in ctxs if all(l in un or l in bi or l in ("X", "P") for l in _flat(c(("X",))))]
+    seen, out = set(), []
+    for t in placed:
+        for c in ctxs:
+            L = tuple(_name_leaves(_flat(c(t))))
+            if L not in seen:
+                seen.add(L)
+                out.append(list(L))
+    return out
+
+
 def jobs_for(ctx):
     rng = esrv.rng(ctx.seed, "C11/inputs")
     quick = ctx.quick
     rb = random_bases(rng, 30 if quick else 40)
     jobs = [{"basis": None, "corpus": True}]
+    for b, fullx in DIRECTED_BASES:
+        trees = directed_trees(b, fullx, deep=not quick)
+        for part in shard(trees, 800):      # several jobs so that the driver processes share them
+            jobs.append({"basis": b, "trees": part, "directed": True})
     nship = 5 if quick else 6
     for name, b in SHIPPED.items():
         for n in range(1, nship + 1):
@@ -234,7 +333,7 @@ def run_impl(ctx, jobs, full=True, workers=8):
             for b, L in CORPUS:
                 flat.append({"basis": b, "trees": [L]})
         else:
-            flat.append({k: v for k, v in j.items() if k != "name"})
+            flat.append({k: v for k, v in j.items() if k not in ("name", "directed")})
     # greedy balance by a crude cost estimate
     def cost(j):
         if "trees" in j:
@@ -355,7 +454,12 @@ def correspondence(ctx):
                  input=[{"basis": r["basis"], "labels": r["labels"]} for r in bad],
                  observed={"impl": [{"p1": r["p1"], "sites": r.get("sites")} for r in bad], "model": diag, "coq": flat[-600:]},
                  theorem="Model/Rewrite.v phase1 / apply_site")
-    rep.rule = ("every tree of the 6 shipped bases at complexity <= %s (strided sample at %s for keep_duplicates, ext_maths, base_e_maths) "
+    rep.extra["directed_trees"] = sum(len(j["trees"]) for j in jobs if j.get("directed"))
+    rep.rule = ("DIRECTED family (both tiers, %d trees): every site kind (log_abs / exp with a chain of 1-2 power operators) bare and as left/right "
+                "argument of + - (* / as controls) with 1-, 2-, 3-node siblings, in outer contexts none / unary / left or right argument of a binary "
+                "operator with 1- or 2-node sibling / two levels, all other leaves distinct parameters, over 4 bases (with and without '-', '/', "
+                "sqrt_abs, cube); then " % rep.extra["directed_trees"] +
+                "every tree of the 6 shipped bases at complexity <= %s (strided sample at %s for keep_duplicates, ext_maths, base_e_maths) "
                 "and of %d random sub-bases (always + and *, random subset of inv square cube sqrt_abs exp log_abs sin, random subset "
                 "of - / pow) at complexity <= %s (strided sample at %s); random trees at %s biased towards +/- and unary chains; past "
                 "findings replayed; trees on which neither phase does anything are counted and 1 in 40 of them compared; "
